@@ -341,7 +341,11 @@ func (r *resolver) copyOverSubmoduleData(main *Module, sub *Module) error {
 		main.groupings[g.ident] = g
 	}
 	for _, i := range sub.imports {
-		main.imports[i.moduleName] = i
+		// the module may import the same module itself, under another prefix: its
+		// own import statement stays
+		if _, imported := main.imports[i.moduleName]; !imported {
+			main.imports[i.moduleName] = i
+		}
 	}
 	main.extensions = append(main.extensions, sub.extensions...)
 	main.augments = append(main.augments, sub.augments...)
@@ -958,8 +962,13 @@ func (r *resolver) findGrouping(y *Uses) (*Grouping, error) {
 				// issue #50 - submodules can reference types in parent and in any
 				// other submodule w/o prefix
 				if m, isModule := p.(*Module); isModule && m.belongsTo != nil {
-					// nil for a module that says belongs-to: it is nobody's submodule
-					p, _ = m.Parent().(Definition)
+					// everything the submodules define ends up in the module, however deep the
+					// includes go. nil for a module that says belongs-to: it is nobody's submodule
+					if top := belongingModule(m); top != nil && top != m {
+						p = top
+					} else {
+						p = nil
+					}
 				}
 			}
 		}
@@ -1042,7 +1051,14 @@ func (r *resolver) expandAugment(y *Augment, parent Meta) error {
 	// RFC7950 Sec 7.17
 	// "The target node MUST be either a container, list, choice, case, input,
 	//   output, or notification node."
-	target := Find(parent.(HasDataDefinitions), y.ident)
+	targetPath := y.ident
+	if sub := definingModule(y); sub.belongsTo != nil && sub.belongsTo.prefix != "" {
+		// written in a submodule: the prefix the submodule gives its module is the module's own
+		if own := belongingModule(sub).Prefix(); own != sub.belongsTo.prefix {
+			targetPath = strings.ReplaceAll("/"+targetPath, "/"+sub.belongsTo.prefix+":", "/"+own+":")[1:]
+		}
+	}
+	target := Find(parent.(HasDataDefinitions), targetPath)
 	if target == nil {
 		return fmt.Errorf("%s - augment target is not found %s", SchemaPath(y), y.ident)
 	}
